@@ -18,6 +18,7 @@ import (
 	"github.com/FollowTheProcess/spok/logger"
 	"github.com/FollowTheProcess/spok/parser"
 	"github.com/FollowTheProcess/spok/shell"
+	"github.com/FollowTheProcess/spok/verifhook"
 	"github.com/fatih/color"
 	"github.com/joho/godotenv"
 	"github.com/juju/ansiterm/tabwriter"
@@ -423,6 +424,7 @@ func (a *App) clean(spokfile *file.SpokFile) error {
 	}
 
 	for _, file := range toRemove {
+		verifhook.Point("clean.remove", file)
 		err := os.RemoveAll(file)
 		if err != nil {
 			return fmt.Errorf("Could not remove %s: %w", file, err)
